@@ -35,8 +35,16 @@ DOCS = [
     "| a | b |\n|---|:-:|\n| 1 | `c|d` |\n\n> [!NOTE]\n> alert body\n",
     "## **Bold**\n\nSentence one. Sentence two is longer than one. Three!\n\n* * *\n\nlast\\\nline\n",
     "1) first\n2) second\n\n10. ten\n11. eleven\n\n<div>inline html</div> and <span>x</span>\n",
+    "intro text\n\n~~~python title\ndef f():\n    return 1\n~~~\n\nafter the tilde fence\n\n````md\n```\ninner\n```\n````\n",
+    # dense documents: most of the formatting time is spent in one construct, so that fine-grained interleavings of two such calls
+    # meet inside it (per-construct hand-off state: fence info, table alignment, reference / footnote tables)
+    "".join(f"p{i}\n\n```a{i}\ncode a{i}\n```\n\n" for i in range(8)),
+    "".join(f"q{i}\n\n~~~~b{i} x\ncode b{i}\n~~~~\n\n" for i in range(8)),
+    "".join(f"| h{i} | k |\n|:--|--:|\n| {i} | `c|d` |\n\n" for i in range(6)) + "".join(f"[r{i}]: http://a.example/{i}\n" for i in range(6)) + "\nsee " + " ".join(f"[r{i}]" for i in range(6)) + "\n",
+    "".join(f"| g{i} |\n|:-:|\n| {i} |\n\n" for i in range(6)) + "".join(f"[r{i}]: http://b.example/{i} \"t\"\n" for i in range(6)) + "\nsee " + " ".join(f"[r{i}]" for i in range(6)) + " and" + "".join(f" n[^{i}]" for i in range(4)) + "\n\n" + "".join(f"[^{i}]: note {i}\n\n" for i in range(4)),
     "",
 ]
+DENSE_PAIRS = [(12, 13), (13, 12), (14, 15), (15, 14), (12, 15), (1, 11)]       # indices into DOCS
 OPTS = [
     dict(width=20), dict(width=40, semantic=False), dict(width=0), dict(width=30, smartquotes=True, ellipses=True),
     dict(width=25, list_spacing="loose"), dict(width=25, list_spacing="tight", cleanups=False), dict(width=30, plaintext=True),
@@ -157,8 +165,9 @@ def run(tier: str) -> int:
                 jobs.append((list(tp), nst, [t - 1 for t in sc], len(jobs) % 10 == 0))
                 jmeta.append(dict(kind="sched", nthreads=nth, nsteps=nst, maxpreempt=mp_, calls=list(tp), schedule=list(sc)))
     nfine = 40 if tier == "quick" else 400
-    for k in range(nfine):
-        tp = tuple(rng.sample(cs, 2 if k % 3 else 3))
+    dense = [((a, 0), (b, 0)) for a, b in DENSE_PAIRS]
+    for k in range(nfine + (60 if tier == "quick" else 600)):
+        tp = tuple(rng.sample(cs, 2 if k % 3 else 3)) if k < nfine else dense[k % len(dense)]
         jobs.append((list(tp), 0, chk.seed * 100003 + k, False))
         jmeta.append(dict(kind="fine", calls=list(tp), rnd=chk.seed * 100003 + k))
     results = pmap(_sched_run, jobs, chunksize=8)
